@@ -164,10 +164,24 @@ func GenC07(seed uint64, idx int) *Scenario {
 	// same codec, pool and tables also in the steady state
 	focus := types[r.Intn(len(types))]
 	steady := r.Intn(3) == 0
+	// one run in five has a second, differently configured instance used at
+	// the same time by some of the callers (state outside an instance would
+	// show as one configuration leaking into the other)
+	if r.Intn(5) == 0 && !cfg.Default && !sc.SimReg {
+		other := world.Configs[r.Intn(len(world.Configs))]
+		if other != cfg {
+			sc.Insts = append(sc.Insts, other)
+		}
+	}
 	for t := 0; t < nt; t++ {
 		nops := 1 + r.Intn(4)
 		if steady {
 			nops = 3 + r.Intn(4)
+		}
+		inst := 0
+		icfg := cfg
+		if len(sc.Insts) > 1 && t%2 == 1 {
+			inst, icfg = 1, sc.Insts[1]
 		}
 		var ops []Op
 		for len(ops) < nops {
@@ -175,11 +189,15 @@ func GenC07(seed uint64, idx int) *Scenario {
 			if r.Intn(10) < 7 {
 				pick = []string{focus}
 			}
-			op, ok := genC07Op(sc, &r, cfg, pick, fam)
+			op, ok := genC07Op(sc, &r, icfg, pick, fam)
+			if ok && !world.TopOK(&world.TypeInfo{T: typeInfo(op.Type).T, Top: true}, icfg) && !typeInfo(op.Type).Bad {
+				ok = false
+			}
 			if !ok {
 				nops--
 				continue
 			}
+			op.Inst = inst
 			ops = append(ops, op)
 		}
 		sc.Tasks = append(sc.Tasks, ops)
